@@ -48,7 +48,7 @@ package sessiontracker
 //@   requires forall j int :: 0 <= j && j < len(o.cached) ==> o.cached[j] != nil
 //@   modifies o.cached, out, g_evsrc, g_evby
 //@   allocates "F!auditevent.AuditEvent!*", "M!*"
-//@   assert_at Write[render] EvIs(e, o.login.Source, o.cached[i]) && g_evsrc[e] == o.cached[i] && g_evby[e] == o.login.Source
+//@   assert_at Write[render] EvIs(e, o.login.Source, o.cached[len(out) - old(len(out))]) && g_evsrc[e] == o.cached[len(out) - old(len(out))] && g_evby[e] == o.login.Source
 //@   ensures[ok] result == nil ==> (o.cached == nil || o.cached == old(o.cached)) && len(o.cached) == 0 && len(out) == old(len(out)) + old(len(o.cached))
 //@   ensures[okall] result == nil ==> (forall i int :: old(len(out)) <= i && i < len(out) ==> Rendered(i, o.login.Source, old(o.cached[i - old(len(out))])))
 //@   ensures[err] result != nil ==> wfailed && len(out) >= old(len(out)) && len(out) < old(len(out)) + old(len(o.cached)) && o.cached == old(o.cached)
